@@ -30,6 +30,9 @@ def run_case(spec):
     import testtools
     from testtools.content_type import ContentType
     vs = []
+    # one details dict object per distinct set of attachments, handed to several outcome calls (in half of the
+    # histories: chosen from the spec itself so that no extra draw is needed)
+    shared_details = {} if len(spec["ops"]) % 2 else None
     ext = Ext()
     rec = streams.Recorder()
     r = testtools.ExtendedToStreamDecorator(testtools.CopyStreamResult([rec, testtools.StreamToExtendedDecorator(ext)]))
@@ -73,13 +76,13 @@ def run_case(spec):
             e["stop"] = now
             e["marker"] = "MARK-%d-" % op["marker"]
             e["out_from"] = len(rec.events)
-            info = H.outcome_call(r, cur, op)
+            info = H.outcome_call(r, cur, op, shared=shared_details)
             e["out_to"] = len(rec.events)
             p = op["payload"]
             e["details"] = {}
             e["err"] = info["err"] is not None
             if info["details"] is not None:
-                keys_after = set(info["details"])
+                keys_after = set(info.get("details_live", info["details"]))      # the very dict the reporter handed over
                 want_keys = set(p["details"]) | ({"reason"} if p["form"] == "details+reasondetail" else set())
                 if keys_after != want_keys:
                     vs.append(V("caller-args", "details-dict-mutated", "the caller's details dict now has keys %r, was %r" % (sorted(keys_after), sorted(want_keys))))
@@ -161,7 +164,9 @@ def run_case(spec):
                     got = det["reason"][2].decode("utf8", "replace")
                 if got != e["reason"]:
                     vs.append(V("roundtrip", "skip-reason", "skip reason %r replayed as %r" % (e["reason"], got)))
-            extra = set(det) - set(e["details"]) - {"traceback", "reason"}
+            # a traceback is only generated from exc_info, a reason only for a skip that was given one
+            allowed = ({"traceback"} if e["err"] else set()) | ({"reason"} if e["kind"] == "skip" and e["reason"] is not None else set())
+            extra = set(det) - set(e["details"]) - allowed
             if extra:
                 vs.append(V("roundtrip", "detail-invented", "details %r were never sent" % sorted(extra)))
 
@@ -212,7 +217,8 @@ def run_case(spec):
             if eofs != [False] * (len(got) - 1) + [True]:
                 vs.append(V("stream", "eof", "detail %r eof flags %r (must be set exactly on the last chunk)" % (name, eofs)))
         for name, got in files.items():
-            if name not in e["details"] and name not in ("traceback", "reason"):
+            allowed_f = (("traceback",) if e["err"] else ()) + (("reason",) if e["kind"] == "skip" and e["reason"] is not None else ())
+            if name not in e["details"] and name not in allowed_f:
                 vs.append(V("stream", "file-invented", "file %r was never a detail" % name))
             if [g["eof"] for g in got][-1] is not True or any(g["eof"] for g in got[:-1]):
                 vs.append(V("stream", "eof", "file %r eof flags %r" % (name, [g["eof"] for g in got])))
